@@ -21,6 +21,20 @@ import Anko.Model.Eval
 import Anko.Gen.Recover
 import Anko.Gen.RunFlow
 import Anko.Props.RunFlowTable
+import Anko.Props.Tie.RunFlow
+import Anko.Props.Tie.ExprFlow
+import Anko.Props.Tie.ContFlow
+import Anko.Props.Tie.ProvFlow
+import Anko.Props.Tie.ConvFlow
+import Anko.Props.Tie.BindFlow
+import Anko.Props.Tie.ToXFlow
+import Anko.Props.Tie.ChanFlow
+import Anko.Props.Tie.SingleStmtFlow
+import Anko.Props.Tie.ImportFlow
+import Anko.Props.Tie.CallFlow
+import Anko.Props.Tie.StmtFlow
+import Anko.Props.Tie.LexFlow
+import Anko.Props.Tie.EnvFlow
 
 namespace Anko.C01
 open Anko.Cont
@@ -138,6 +152,39 @@ Every leaf statement of Execute / ExecuteContext / Run / RunContext (parse error
 the sentinel errors mapped at the end), recoverFunc, makeType / getTypeFromEnv / makeValue and `make(type ...)`, with the conditions it stands
 under, is the one written down in Props/RunFlowTable - the code the containment facts of Gen/Recover and the guard theorems above were audited against. Any edit of these functions - also a harmless one - breaks this obligation by name; the check then
 searches model and implementation for a failing input (DESIGN.md 13.3). -/
-theorem entry_points_and_type_construction_are_the_audited_ones : Gen.RunFlow.leaves = Tables.runFlow := by decide +kernel
+theorem entry_points_and_type_construction_are_the_audited_ones : Gen.RunFlow.leaves = Tables.runFlow := Tie.runFlow
+
+/-! ### Shared source ties
+
+The code this property is anchored in is also written down, leaf statement by leaf statement, by the tables below (each decided once in
+Props/Tie, `decide +kernel`, against the table regenerated from /repo on this run). A change of that code breaks the tie by name here too, and the check of
+this property then searches for a failing input - so a change that breaks this property through code whose primary table belongs to another
+property is not overlooked. -/
+/-- the expression dispatcher and multi-operand forms (vmExpr.go) -/
+theorem source_tie_ExprFlow : Gen.ExprFlow.leaves = Tables.exprFlow := Tie.exprFlow
+/-- the container paths (index, slice, len, member, make, assignment targets, delete) -/
+theorem source_tie_ContFlow : Gen.ContFlow.leaves = Tables.contFlow := Tie.contFlow
+/-- unary operators, dereference, address-of, unalias, containerOperand, isNil -/
+theorem source_tie_ProvFlow : Gen.ProvFlow.leaves = Tables.provFlow := Tie.provFlow
+/-- the conversion at the Go boundary (vmConvertToX.go) -/
+theorem source_tie_ConvFlow : Gen.ConvFlow.leaves = Tables.convFlow := Tie.convFlow
+/-- function literals, module, var and assignment statements -/
+theorem source_tie_BindFlow : Gen.BindFlow.leaves = Tables.bindFlow := Tie.bindFlow
+/-- the conversions of the numeric tower (vmToX.go) and kind helpers -/
+theorem source_tie_ToXFlow : Gen.ToXFlow.leaves = Tables.toXFlow := Tie.toXFlow
+/-- the channel forms -/
+theorem source_tie_ChanFlow : Gen.ChanFlow.leaves = Tables.chanFlow := Tie.chanFlow
+/-- the statement dispatcher, return, defer, deferred calls -/
+theorem source_tie_SingleStmtFlow : Gen.SingleStmtFlow.leaves = Tables.singleStmtFlow := Tie.singleStmtFlow
+/-- import(...) -/
+theorem source_tie_ImportFlow : Gen.ImportFlow.leaves = Tables.importFlow := Tie.importFlow
+/-- the call machinery (vmExprFunction.go) -/
+theorem source_tie_CallFlow : Gen.CallFlow.leaves = Tables.callFlow := Tie.callFlow
+/-- the branch, loop, try and defer functions (vmStmt.go) -/
+theorem source_tie_StmtFlow : Gen.StmtFlow.leaves = Tables.stmtFlow := Tie.stmtFlow
+/-- the scanner and the parser's entry points (lexer.go) -/
+theorem source_tie_LexFlow : Gen.LexFlow.leaves = Tables.lexFlow := Tie.lexFlow
+/-- the environment API (env/*.go) -/
+theorem source_tie_EnvFlow : Gen.EnvFlow.leaves = Tables.envFlow := Tie.envFlow
 
 end Anko.C01
